@@ -399,9 +399,21 @@ where
         acc: &mut Vec<O>,
     ) -> IResult<'a, ()> {
         while input.location_offset() < end_pos {
-            let (i, out) = O::parse(None, input.clone())?;
-            acc.push(out);
-            input = i;
+            match O::parse(None, input.clone()) {
+                Ok((i, out)) => {
+                    acc.push(out);
+                    input = i;
+                }
+                // like `many0`: the list ends in front of the element that could not be parsed,
+                // not where its parser gave up (it may have skipped comments already)
+                Err(nom::Err::Error(err)) => {
+                    return Err(nom::Err::Error(ParserError {
+                        input,
+                        kind: err.kind,
+                    }))
+                }
+                Err(e) => return Err(e),
+            }
         }
         Ok((input, ()))
     }
